@@ -50,6 +50,10 @@ type lifeRow struct {
 	Client   string           `json:"client,omitempty"`
 	Scenario string           `json:"scenario,omitempty"`
 	Ending   string           `json:"ending,omitempty"`
+	Who      string           `json:"who,omitempty"` // bulk: who, target, reads, close
+	Target   string           `json:"target,omitempty"`
+	Reads    int              `json:"reads,omitempty"`
+	Close    bool             `json:"close,omitempty"`
 	Pred     []map[string]any `json:"pred"`
 	Repeat   int              `json:"repeat,omitempty"`
 	Rseed    *int64           `json:"rseed,omitempty"`
@@ -67,6 +71,8 @@ func (w *lifeRow) key() string {
 		return "restart:proto=" + w.Proto + ":script=" + scriptName(w.Script) + ":timing=" + w.Timing
 	case "stop":
 		return "stop:client=" + w.Client + ":scenario=" + w.Scenario + ":end=" + w.Ending
+	case "bulk":
+		return fmt.Sprintf("bulk:target=%s:reads=%d:close=%v", w.Target, w.Reads, w.Close)
 	}
 	return "?" + w.Kind
 }
@@ -578,6 +584,8 @@ func lifeMain(rowsPath string) {
 						obs, why = run.runRestart(w, lr)
 					case "stop":
 						obs, why = run.runStop(w, lr)
+					case "bulk":
+						obs, why = run.runBulk(w, lr)
 					default:
 						why = "unknown kind " + w.Kind
 					}
